@@ -83,7 +83,9 @@ class RecursiveChecker(ConversionsVisitor[Conv, Any], ObjectVisitor[Any]):
 
     def visit(self, tp: AnyType):
         rec_key = (tp, self._conversion)
-        if rec_key in self._cache:
+        # Only types known as not recursive can be skipped: a type cached as recursive can
+        # lead back to the types being visited, and skipping it would hide their recursion
+        if self._cache.get(rec_key) is False:
             pass
         elif rec_key in self._guard_indices:
             recursive = self._guard[self._guard_indices[rec_key] :]
